@@ -588,8 +588,8 @@ func devBytes(b []byte, f field, v int) []byte {
 			return nil
 		}
 		// the number of locals is unbounded in wazero (open finding alloc:...decodeCode:localTypes): every
-		// value between 2^20 and 2^31 costs seconds to minutes of CPU per evaluation and only re-hits it
-		if f.Kind == "code.local.n" && e.v > 1<<20 {
+		// value between 2^18 and 2^31 costs seconds to minutes of CPU per evaluation and only re-hits it
+		if f.Kind == "code.local.n" && e.v > 1<<18 {
 			return nil
 		}
 		r = uleb(e.v)
